@@ -639,6 +639,37 @@ func shorthandBlockTypesSet() bool {
 //@     invariant -1 <= rangeindex && rangeindex < len(f.Results)
 //@     invariant rangeindex+1 <= f.ResultNumInUint64 && f.ResultNumInUint64 <= 2*(rangeindex+1)
 
+// ---- C08 / C04: the host's view of a global (api.Global / api.MutableGlobal) is the instance's own storage
+// when no engine owns it: Get returns the 64-bit value as it is, Set stores all 64 bits and clears the high
+// half of a v128, and nothing else of the instance changes. (Engine-owned globals go through
+// ModuleEngine.Get/SetGlobalValue, under contract in the wazevo package.)
+//@ prop C08 C04
+//@ case own-storage (g *GlobalInstance) Value() (uint64, uint64)
+//@   requires g.Me == nil
+//@   ensures[the-stored-bits] r0 == g.Val && r1 == g.ValHi
+//@   modifies nothing
+
+//@ case own-storage (g *GlobalInstance) SetValue(lo, hi uint64)
+//@   requires g.Me == nil
+//@   ensures[stores-all-bits] g.Val == lo && g.ValHi == hi
+//@   ensures[type-and-owner-kept] g.Type == old(g.Type) && g.Me == nil && g.Index == old(g.Index)
+//@   modifies g.Val, g.ValHi
+
+//@ case own-storage (g mutableGlobal) Set(v uint64)
+//@   requires g.g != nil && g.g.Me == nil
+//@   ensures[stores-all-bits] g.g.Val == v && g.g.ValHi == 0
+//@   modifies g.g.Val, g.g.ValHi
+
+//@ case own-storage (g mutableGlobal) Get() uint64
+//@   requires g.g != nil && g.g.Me == nil
+//@   ensures[the-stored-bits] r0 == g.g.Val
+//@   modifies nothing
+
+//@ case own-storage (g constantGlobal) Get() uint64
+//@   requires g.g != nil && g.g.Me == nil
+//@   ensures[the-stored-bits] r0 == g.g.Val
+//@   modifies nothing
+
 // ---- C14: a decoded memory is accepted exactly when minimum <= maximum <= limit and the capacity lies
 // between the minimum and the limit.
 //@ prop C14 C03
